@@ -196,6 +196,8 @@ class System:
     name = "?"
     #: properties this system has oracles for
     serves = ()
+    #: depth of the state currently handed to check_state (set by explore; replay sets 0)
+    cur_depth = 0
 
     def configs(self, prop, tier, seed):
         raise NotImplementedError
@@ -279,6 +281,23 @@ class System:
         from mc import cref
 
         return {k: v for k, v in cref.STATS.items() if v}
+
+
+def twin_divergence(system, cfg, post, read_only, observe):
+    """C19 differential: a clone on which the read-only calls were run must be indistinguishable from an
+    untouched clone ONE EVENT LATER (catches hidden state - caches, cursors, padded buckets - that the
+    observation vector cannot see).  Returns None or a description of the first divergence."""
+    q = system.clone(post)
+    read_only(q)
+    for ev in system.events(cfg, post):
+        o1, p1 = system.step_one(cfg, post, ev, None)
+        o2, p2 = system.step_one(cfg, q, ev, None)
+        if repr(o1) != repr(o2):
+            return {"event": ev, "untouched": repr(o1)[:200], "queried": repr(o2)[:200]}
+        a, b = observe(p1), observe(p2)
+        if a != b:
+            return {"event": ev, "untouched_obs": repr(a)[:300], "queried_obs": repr(b)[:300]}
+    return None
 
 
 class Result:
@@ -404,6 +423,7 @@ def explore(system: System, cfg, props, max_violations=20, state_cap=None, known
                 if not viols:
                     k = digest(system.key(cfg, post))
                     if k not in seen:
+                        system.cur_depth = d + 1
                         viols = system.check_state(cfg, st, ev, obs, post, props)
                         res.state_checks += 1
                 if viols:
